@@ -65,6 +65,18 @@ def tasks_for(prop, tier):
         sel = (lambda kw: True) if prop == "C10" else (lambda kw: bool(kw.get("scales")))
         out += c12.generated_clone_tasks(tier, prop, select=sel)
         out += c12.generated_divergent_tasks(tier, prop, select=sel)
+    if prop in ("C04", "C05", "C12"):
+        from . import c13
+        sel = {"C04": lambda h: "subject_to" in h or "clear_constraints" in h, "C05": lambda h: "add_objective" in h,
+               "C12": lambda h: h.startswith("substage")}[prop]
+        out += c13.history_tasks_for(prop, sel, tier)
+    if prop in ("C01", "C02"):
+        from . import c17
+        out += c17.der_independence_tasks(tier, prop)
+    if prop == "C11":
+        # der() chains of b-spline signals carry 1/T per derivative: the horizon is a symbol (free T)
+        from . import c17
+        out += c17.sequence_tasks(tier, "C11")
     if prop == "C02":
         from . import c03
         out.append(Task("C02/collocation-polynomial-tables", lambda: c03.native_collocation(only=("nodes-are", "C-is", "D-is", "tables-independent")), kind="enumerated", replay=dict(harness="colloc_probe"),
